@@ -399,6 +399,9 @@ pub fn nontrivial(prop: &str, c: &BTreeMap<String, u64>) -> bool {
         "C13" => g("vacuums") > 0 && g("state_checks") > 0,
         "C15" => g("ddl_in_session") > 0,
         "C16" => g("failed_statements_in_session") > 0,
+        "C01" => g("crash_points_after_an_ack") > 0,
+        "C02" => g("crash_points") > 0 && (g("rollbacks") + g("session_drops") + g("sessions")) > 0,
+        "C08" => g("nested_crash_points") > 0,
         _ => true,
     }
 }
